@@ -22,7 +22,7 @@ RangeOf(s) == {s[i] : i \in DOMAIN s}
 Ops    == {"(", ")", ";", "|", "&"}
 Active == {"$", "`", "\"", "*", "?", "[", "]", "{", "}", "<", ">", "~", "#", "!"}
 NL     == "\n"
-NewWord == [t |-> "w", cs |-> <<>>, inert |-> TRUE, open |-> FALSE]
+NewWord == [t |-> "w", cs |-> <<>>, inert |-> TRUE, open |-> FALSE, nl |-> FALSE]      \* nl: a line break inside the word
 
 \* cs : characters still to read; st \in {"n","q","e"}; cur : word being built; toks : tokens so far
 RECURSIVE LexR(_, _, _, _)
@@ -31,8 +31,8 @@ LexR(cs, st, cur, toks) ==
   IF cs = <<>> THEN [ok |-> st = "n", toks |-> Flush(cur, toks)]
   ELSE LET c == Head(cs)  r == Tail(cs) IN
     CASE st = "q" -> IF c = "'" THEN LexR(r, "n", cur, toks)
-                     ELSE LexR(r, "q", [cur EXCEPT !.cs = Append(@, c)], toks)
-      [] st = "e" -> LexR(r, "n", [cur EXCEPT !.cs = Append(@, c), !.open = TRUE], toks)
+                     ELSE LexR(r, "q", [cur EXCEPT !.cs = Append(@, c), !.nl = @ \/ c = NL], toks)
+      [] st = "e" -> LexR(r, "n", [cur EXCEPT !.cs = Append(@, c), !.open = TRUE, !.nl = @ \/ c = NL], toks)
       [] st = "n" ->
            IF c = "'" THEN LexR(r, "q", [cur EXCEPT !.open = TRUE], toks)
            ELSE IF c = "\\" THEN LexR(r, "e", cur, toks)
@@ -136,9 +136,12 @@ SeqToBag(s) == LET R == RangeOf(s) IN [x \in R |-> Cardinality({i \in DOMAIN s :
 NonEmpty(s) == SelectSeq(s, LAMBDA x : x # <<>>)
 \* zsh: the data words are the replacements; bash: display strings - one per candidate, each beginning
 \* with the candidate's replacement or its pretty form - plus group headers
-AcceptScript(shell, chars, items, groups, nfiles) ==
+\* typednl: the word being completed contains a line break (it has no one-line spelling inside '...'); every other
+\* string - names, help texts, group names, masks, completer values - reaches the output on the line of its directive
+AcceptScript(shell, chars, items, groups, nfiles, typednl) ==
   LET lx == Lex(chars) IN
   IF ~lx.ok THEN [ok |-> FALSE, why |-> "unterminated"]
+  ELSE IF ~typednl /\ \E i \in DOMAIN lx.toks : lx.toks[i].t = "w" /\ lx.toks[i].nl THEN [ok |-> FALSE, why |-> "multiline"]
   ELSE LET j == Judge(SplitNL(lx.toks, <<>>, <<>>), shell, <<>>, 0) IN
        IF ~j.ok THEN [ok |-> FALSE, why |-> "directive"]
        ELSE IF j.nfiles # nfiles THEN [ok |-> FALSE, why |-> "completers"]
